@@ -412,8 +412,40 @@ def check(prop, tier, seed):
 
 
 def merge_ic(tpath, tpath2):
-    """append the ignore_case build's events (tagged build=ic) after each case of the default trace"""
-    raise ToolError("merge_ic not implemented")
+    """C15: append to each case of the default build's trace the events the ignore_case build
+    recorded for the same case, as further objects of that case (obj ids shifted)."""
+    def chunks(path):
+        out = []
+        with open(path) as f:
+            for line in f:
+                if not line.strip():
+                    continue
+                e = json.loads(line)
+                if e.get("ev") == "case":
+                    out.append([])
+                if out:
+                    out[-1].append(e)
+        return out
+    a, b = chunks(tpath), chunks(tpath2)
+    if len(a) != len(b):
+        raise ToolError("the two builds recorded a different number of cases")
+    with open(tpath, "w") as f:
+        for ca, cb in zip(a, b):
+            nobj = sum(1 for e in ca if e.get("ev") in ("opt", "alt", "reload"))
+            for e in ca:
+                f.write(json.dumps(e, separators=(",", ":")) + "\n")
+            for e in cb[1:]:
+                e = dict(e)
+                if e.get("ev") == "load":
+                    e["ev"] = "icload"
+                elif e.get("ev") == "skip":
+                    pass
+                else:
+                    for key in ("obj", "from"):
+                        if key in e:
+                            e[key] += nobj
+                e["build"] = "ic"
+                f.write(json.dumps(e, separators=(",", ":")) + "\n")
 
 
 def replay(prop, path):
